@@ -128,6 +128,36 @@ func cmdFsReq(args []string) error {
 	return nil
 }
 
+// fs-two <dir> <sidA> <sidB> <input>: one process serves one request of session A and then one of session B, each with its
+// own store handle, engine and persister on the same data directory; an openat of "__marker__" separates the two saves in
+// the strace log.
+func cmdFsTwo(args []string) error {
+	runtime.GOMAXPROCS(1)
+	runtime.LockOSThread()
+	ctx := context.Background()
+	for i, sid := range []string{args[1], args[2]} {
+		if i == 1 {
+			os.Open(args[0] + "/__marker__")
+		}
+		store := fsdb.NewFsDb()
+		if err := store.Connect(ctx, args[0]); err != nil {
+			return err
+		}
+		p := crashProgram()
+		rs := &crashRes{&recResource{prog: p}}
+		pe := persist.NewPersister(store)
+		en := engine.NewEngine(engine.Config{Root: "root", FlagCount: 2, SessionId: sid}, rs).WithPersister(pe)
+		if _, err := en.Exec(ctx, []byte(args[3])); err == nil {
+			en.Flush(ctx, bytes.NewBuffer(nil))
+		}
+		if err := en.Finish(ctx); err != nil {
+			return err
+		}
+	}
+	fmt.Println("RESULT {}")
+	return nil
+}
+
 func cmdFsLoad(args []string) error {
 	runtime.GOMAXPROCS(1)
 	ctx := context.Background()
@@ -157,5 +187,6 @@ func cmdFsLoad(args []string) error {
 
 func init() {
 	register("fs-req", cmdFsReq)
+	register("fs-two", cmdFsTwo)
 	register("fs-load", cmdFsLoad)
 }
